@@ -458,6 +458,7 @@ func TestVerifC06(t *testing.T) {
 	c06Trees(c, mc.Pick(c, 6, 7))
 	c06Lists(c, mc.Pick(c, 4, 5))
 	c06Streams(c, mc.Pick(c, 4, 5))
+	c06Words(c, mc.Pick(c, 4, 5))
 	if code := c.Finish(); code != 0 {
 		os.Exit(code)
 	}
